@@ -39,22 +39,7 @@ def printer_functions(F):
     return [f for f in F.fn.values() if f['loc'].split(':')[0] in PRINTER_FILES]
 
 
-def _linear(t, sign=1, acc=None):
-    """a sum / difference of terms as {term: coefficient} (constants under the key None): x + (y - x) and y are the same value"""
-    top = acc is None
-    acc = {} if acc is None else acc
-    while isinstance(t, tuple) and t and t[0] == 'castto':
-        t = t[2]
-    if isinstance(t, tuple) and t[:1] == ('op',) and len(t) == 4 and t[1] in ('+', '-'):
-        _linear(t[2], sign, acc)
-        _linear(t[3], sign if t[1] == '+' else -sign, acc)
-    elif isinstance(t, tuple) and t[:1] == ('op',) and len(t) == 3 and t[1] == '-':
-        _linear(t[2], -sign, acc)
-    elif isinstance(t, tuple) and t[:1] == ('k',) and isinstance(t[1], int):
-        acc[None] = acc.get(None, 0) + sign * t[1]
-    else:
-        acc[t] = acc.get(t, 0) + sign
-    return {k: v for k, v in acc.items() if v != 0} if top else acc
+from symex import linear_form as _linear
 
 
 def run(ck, F):
